@@ -31,9 +31,9 @@ let () =
     while true do
       let line = input_line stdin in
       (match String.split_on_char ' ' (String.trim line) with
-       | ["Q"; id; wlog; mm; vl; pr; dict; maxnb; vfix; vraw; delims; ers; bsmax; srcsize; rep; dec; seqs] ->
+       | ["Q"; id; wlog; mm; vl; pr; dict; maxnb; fixed; delims; ers; bsmax; srcsize; rep; dec; seqs] ->
          let cfg = { g_wlog = n wlog; g_minMatch = n mm; g_validate = b vl; g_producer = b pr; g_dict = n dict;
-                     g_maxNbSeq = n maxnb; g_vfix = b vfix; g_vraw = b vraw } in
+                     g_maxNbSeq = n maxnb; g_fixed = b fixed } in
          (match compress_sequences cfg (b delims) (b ers) (n bsmax) (n srcsize) (parse_seqs seqs) (parse_rep rep) (parse_dec dec) with
           | Done blks ->
             Printf.printf "%s OK %s\n" id
@@ -42,9 +42,9 @@ let () =
                      (if k.b_last then 1 else 0) (rep_str k.b_rep_in) (sseqs_str k.b_seqs)) blks))
           | Invalid s -> Printf.printf "%s INVALID %d\n" id (i s)
           | Oob s -> Printf.printf "%s OOB %d\n" id (i s))
-       | ["P"; id; wlog; mm; vl; dict; maxnb; vfix; vraw; ers; fb; nb; cap; srcsize; rep; seqs] ->
+       | ["P"; id; wlog; mm; vl; dict; maxnb; fixed; ers; fb; nb; cap; srcsize; rep; seqs] ->
          let cfg = { g_wlog = n wlog; g_minMatch = n mm; g_validate = b vl; g_producer = true; g_dict = n dict;
-                     g_maxNbSeq = n maxnb; g_vfix = b vfix; g_vraw = b vraw } in
+                     g_maxNbSeq = n maxnb; g_fixed = b fixed } in
          (match producer_block cfg (b ers) (b fb) (parse_seqs seqs) (n nb) (n cap) (n srcsize) (parse_rep rep) with
           | PRstore br -> Printf.printf "%s STORE %d/%s/%s\n" id (i br.r_lastLL) (rep_str br.r_rep) (sseqs_str br.r_seqs)
           | PRfallback -> Printf.printf "%s FALLBACK\n" id
@@ -60,10 +60,10 @@ let () =
          let l = generate_block (b fixll) (parse_sseqs stored) (n lastll) (parse_rep rep) in
          Printf.printf "%s OK %s\n" id (String.concat "," (List.map (fun g ->
              Printf.sprintf "%d:%d:%d:%d" (i g.o_seq.q_off) (i g.o_seq.q_ll) (i g.o_seq.q_ml) (i g.o_rep)) l))
-       | ["U"; id; "v"; wlog; mm; pr; dict; ob; ml; pos] ->
+       | ["U"; id; "v"; fixed; wlog; mm; pr; dict; ob; ml; pos] ->
          let cfg = { g_wlog = n wlog; g_minMatch = n mm; g_validate = true; g_producer = b pr; g_dict = n dict;
-                     g_maxNbSeq = N0; g_vfix = false; g_vraw = false } in
-         Printf.printf "%s %d\n" id (if validate_sequence cfg (n ob) (n ml) (n pos) then 1 else 0)
+                     g_maxNbSeq = N0; g_fixed = b fixed } in
+         Printf.printf "%s %d\n" id (if (if b fixed then validate_fixed cfg (n ob) (n ml) (n pos) else validate_sequence cfg (n ob) (n ml) (n pos)) then 1 else 0)
        | ["U"; id; "f"; raw; rep; ll0] ->
          let r = parse_rep rep in
          let ob = finalize_offbase (n raw) r (b ll0) in
